@@ -3,6 +3,30 @@
 import json, sys
 
 CLAIMED = {
+    "C03": dict(
+        category="exploration",
+        technique="complete-domain enumeration of all 2^24 addresses x 9 formats and all weight<=2 payload families on the real get_icao/reader thread vs an independent CRC-24; explicit-state search of model ROW (3 aircraft, depth 3) for row isolation",
+        text="Address recovery is executed for every one of the 2^24 addresses in each of the nine formats (three payloads in thorough) and for every payload of Hamming weight <= 2 (which exercises every bit of the polynomial and shift schedule) and compared with an independent bit-serial CRC-24; a stride of the same families goes through get_message and the reader thread (row key). Row isolation is decided by explicit-state search: every sequence of 80 frames/ticks for three colliding aircraft to depth 3 is executed on the real reader thread and every transition must leave all rows other than the frame's own bit-identical.",
+        note="Trusted: reference CRC-24 and address rule. Interleavings deeper than 3 over the 80-action alphabet are not covered.",
+        design="DESIGN.md §5 C03", engine="E1 sweep + E2 explorer"),
+    "C08": dict(
+        category="model_checking",
+        technique="explicit-state search of the even/odd pairing machine (13 actions, depth 5/7, every transition a run of the real reader thread) + bounded-exhaustive lattice of true positions x orders x delays, against a reference CPR decoder and pairing machine",
+        text="A lattice of true positions built to hit every NL transition (+-2e-5..3e-2 deg), zone midpoints, the equator, the antimeridian and both hemispheres is encoded with an independent CPR encoder and fed in both parity orders with every delay around the 10 s limit (9.999/10.000/10.001 s), under default and -U: a decodable pair must show the reference global decode, within 20 m of the truth and with the haversine distance; every other pair must leave the position untouched. The pairing logic over histories (re-pairing old slots, zero fields, zone changes, silences) is explored exhaustively to depth 5 (7 thorough) as model PAIR with the reference slots as history variable.",
+        note="Trusted: reference CPR encoder/decoder (round-trip self-test, textbook vector), NL closed formula; latitudes within 1e-6 deg of an NL transition are skipped and counted. Elapsed time is simulated by shifting the public time stamps under a frozen clock.",
+        design="DESIGN.md §5 C08", engine="E1 lattice + E2 explorer"),
+    "C11": dict(
+        category="model_checking",
+        technique="explicit-state breadth-first search over model ROW (26 frames of every supported format per aircraft + ticks; 2 aircraft depth 3/4, 3 aircraft depth 3), each transition executed on the real reader thread, one-step refinement against a reference fold",
+        text="All sequences to depth 3 (quick) / 4 (thorough) over 54 actions for two address-colliding aircraft (and 80 actions for three, thorough) under {default,-U,-R,-U -R} are executed from the empty table, de-duplicated on the canonical table state; on every transition the reference model is applied to the implementation's own pre-state: carried parameters must take the reference value, non-carried ones and all other rows must stay bit-identical, and re-feeding the frame must change nothing (probe on every transition).",
+        note="Trusted: reference semantics refmodel/sem.rs + bds.rs (admissible sets of DESIGN §4). Sequences longer than the depth bound are not covered.",
+        design="DESIGN.md §5 C11", engine="E2 explorer"),
+    "C12": dict(
+        category="model_checking",
+        technique="explicit-state search of model EXPIRY (160 parameter sets x 7-8 actions incl. burst and ticks at delete_after +-1 ms, depth 6/8) on the real reader thread with the true last-heard ages as history variable",
+        text="For delete_after in {1,5,60,600}, default/-U, ten refreshing formats and with/without -f, every sequence of {frame of A, burst of 12 frames of B (forces the sweep), one frame of B, filtered-out frame, silences of 1 s / d-1 ms / d / d+1 ms} to depth 6 (8 thorough) is executed; after every step: an accepted frame puts its aircraft in the table with age 0, an aircraft heard < d s ago is present, after a burst no aircraft silent >= d s remains, a frame from a swept aircraft yields exactly the row it yields in an empty table, and the size bound holds.",
+        note="Trusted: time is simulated by shifting every public time stamp under the frozen clock (exact millisecond ages). The per-run sweep counter starts at 0, so 'at most 12 further frames' is checked as a 12-frame burst.",
+        design="DESIGN.md §5 C12", engine="E2 explorer"),
     "C05": dict(
         category="exploration",
         technique="complete-domain enumeration: all 2^13 AC13 codes (DF4, DF20) and all 2^12 AC12 codes x TC 9..18 x paths x option sets through the real reader thread vs an independent Q-bit/Gillham decoder",
